@@ -2,6 +2,7 @@ SPECIFICATION Spec
 CONSTANT Part = "bounds"
 CONSTANT Deviation = "AcceptsEqual"
 CONSTANT MaxDepth = 3
+CONSTANT Rebounds = FALSE
 CONSTANT Export = FALSE
 INVARIANT C05_MalformedRejected
 CHECK_DEADLOCK FALSE
